@@ -538,6 +538,7 @@ type c42Machine struct {
 	cutK      float64
 	cutZero   bool
 	inflight  map[common.Hash]bool // txs touched by the operation during which the image was taken
+	forceInclude bool              // next head block includes at least one pooled tx per populated account
 	tornOK    map[common.Hash]bool // txs whose stored payload was torn by an interrupted slot write (content not asserted)
 	crashed   bool                 // an abrupt restart happened: deleted store items may have been resurrected
 
@@ -1518,10 +1519,13 @@ func (m *c42Machine) buildChild(parent *c42Block, label string) *c42Block {
 	var touched [c42NAcct]bool
 	for i := 0; i < c42NAcct; i++ {
 		k := rapid.SampledFrom([]int{0, 0, 1, 1, 2, 3}).Draw(rt, label+"Include")
+		if m.forceInclude && k == 0 {
+			k = 1
+		}
 		if k == 0 {
 			continue
 		}
-		if rapid.IntRange(0, 5).Draw(rt, label+"Foreign") == 0 {
+		if !m.forceInclude && rapid.IntRange(0, 5).Draw(rt, label+"Foreign") == 0 {
 			txs = append(txs, m.foreignTx(i, parent.st[i].nonce))
 			included[i], touched[i] = 1, true
 			continue
@@ -1594,7 +1598,7 @@ func (m *c42Machine) actReorg() {
 		}
 	}
 	// retained txs re-included one block later than before: first-class scenario
-	later := wasInLimbo > 0 && depth == 1 && rapid.Bool().Draw(rt, "reincludeLater")
+	later := wasInLimbo > 0 && rapid.Bool().Draw(rt, "reincludeLater")
 	if later {
 		length, lateAt = 2, 2
 		m.c.Class("reorg:reinclude-later")
@@ -1974,12 +1978,18 @@ func c42Run(t *testing.T, rt *rapid.T, st *vs.S) {
 	steps := rapid.IntRange(4, 25).Draw(rt, "steps")
 	for s := 0; s < steps; s++ {
 		switch rapid.SampledFrom([]string{"add", "add", "add", "add", "add", "add", "add", "add", "add", "add", "newHead", "newHead", "newHead",
-			"reorg", "reorg", "setGasTip", "clean", "abruptBoundary", "abruptMidOp", "abruptMidOp"}).Draw(rt, "action") {
+			"reorg", "inclReorg", "inclReorg", "setGasTip", "clean", "abruptBoundary", "abruptMidOp", "abruptMidOp"}).Draw(rt, "action") {
 		case "add":
 			m.actAdd()
 		case "newHead":
 			m.actNewHead()
 		case "reorg":
+			m.actReorg()
+		case "inclReorg":
+			m.forceInclude = true
+			m.actNewHead()
+			m.forceInclude = false
+			m.checkInvariants()
 			m.actReorg()
 		case "setGasTip":
 			m.actSetGasTip()
